@@ -38,7 +38,7 @@ static int on_error(scpi_t * c, int_fast16_t e) { (void) c; (void) e; return 0; 
 static size_t on_write(scpi_t * c, const char * d, size_t l) {
     (void) c;
     if (outn + l < sizeof outb) { memcpy(outb + outn, d, l); outn += l; }
-    return l;
+    return getenv("DRV_WRITE_ZERO") ? 0 : l;      /* a transport that reports nothing written: the heap must not care */
 }
 static scpi_result_t on_control(scpi_t * c, scpi_ctrl_name_t n, scpi_reg_val_t v) { (void) c; (void) n; (void) v; return SCPI_RES_OK; }
 static scpi_result_t on_flush(scpi_t * c) { (void) c; return SCPI_RES_OK; }
